@@ -12,7 +12,7 @@ RUNS = {
     'C01': {'quick': 3000, 'thorough': 150000},
     'C02': {'quick': 4000, 'thorough': 200000},
     'C08': {'quick': 2000, 'thorough': 100000},
-    'C09': {'quick': 8000, 'thorough': 500000},
+    'C09': {'quick': 8000, 'thorough': 150000},
     'C11': {'quick': 1500, 'thorough': 40000},
     'C14': {'quick': 1500, 'thorough': 60000},
     'C16': {'quick': 3000, 'thorough': 100000},
